@@ -228,6 +228,94 @@ def roundtrip_check(cat, outside, ntexts, rng):
     return n, vios
 
 
+LEAN_CODECS = ['ascii', 'latin1', 'latin-1', 'iso-8859-1', 'iso8859-1', 'utf-8', 'utf8', 'UTF-8',
+               'utf-16', 'utf-16-le', 'utf-16-be']
+
+
+class LeanCodecs(object):
+    """the concrete codecs of lean/DiffxVerif/Model/Codecs.lean (for which the codec laws of
+    the round-trip theorems are *proved*, Properties/C01Faithful.lean) against CPython:
+    canonical name, encode, decode (strict), on texts with surrogates, astral code points,
+    U+FEFF, and on valid and damaged byte strings"""
+    PID = PID
+
+    def corpus(self):
+        return []
+
+    def text(self, rng):
+        pools = [(0x20, 0x7f), (0, 0x20), (0x80, 0x100), (0x100, 0x800), (0x800, 0xd800), (0xd800, 0xe000),
+                 (0xe000, 0x10000), (0x10000, 0x110000)]
+        out = []
+        for _ in range(rng.randint(0, 10)):
+            r = rng.random()
+            if r < 0.1:
+                out.append(rng.choice([0xfeff, 0xfffe, 10, 13, 0, 0x7f, 0x80, 0xff, 0x100, 0x7ff, 0x800, 0xffff, 0x10000, 0x10ffff,
+                                       0xd7ff, 0xd800, 0xdbff, 0xdc00, 0xdfff, 0xe000]))
+            else:
+                lo, hi = rng.choice(pools[:3] if r < 0.5 else pools)
+                out.append(rng.randrange(lo, hi))
+        return ''.join(chr(c) for c in out)
+
+    def cases(self, ctx, budget, rng):
+        for name in LEAN_CODECS + ['utf-32', 'nope', 'UTF8', 'Latin1']:
+            yield (name, 'n', None)
+        for _ in range(budget):
+            name = rng.choice(LEAN_CODECS)
+            t = self.text(rng)
+            yield (name, 'e', t)
+            try:
+                b = t.encode(name)
+            except UnicodeError:
+                b = bytes(rng.randrange(256) for _i in range(rng.randint(0, 8)))
+            r = rng.random()
+            if r < 0.5 and b:
+                k = rng.randrange(len(b))
+                b = rng.choice([b[:k], b[:k] + bytes([rng.randrange(256)]) + b[k + 1:], b[:k] + bytes([rng.randrange(256)]) + b[k:],
+                                b[k:], b + b[:k]])
+            elif r < 0.6:
+                b = rng.choice([b'\xff\xfe', b'\xfe\xff', b'\xef\xbb\xbf', b'\xc0\x80', b'\xed\xa0\x80', b'\xf4\x90\x80\x80',
+                                b'\xf8\x88\x80\x80\x80', b'\x00\xd8', b'\x00\xd8\x00\xdc', b'\x00\xdc\x00\xd8', b'\xd8\x00\xdc\x00',
+                                b'\xe0\x80\x80', b'\xf0\x80\x80\x80', b'\x80', b'\xc2']) + b
+            yield (name, 'd', b)
+
+    def request(self, case):
+        name, op, arg = case
+        if op == 'n':
+            return 'codec %s n' % common.enc_text(name)
+        if op == 'e':
+            return 'codec %s e %s' % (common.enc_text(name), common.enc_text(arg))
+        return 'codec %s d %s' % (common.enc_text(name), common.enc_bytes(arg))
+
+    def impl(self, case):
+        name, op, arg = case
+        try:
+            if op == 'n':
+                # the Lean environment knows exactly these spellings
+                if name not in LEAN_CODECS:
+                    return 'err'
+                return 'ok ' + common.enc_text(codecs.lookup(name).name)
+            if op == 'e':
+                return 'ok ' + common.enc_bytes(arg.encode(name))
+            return 'ok ' + common.enc_text(arg.decode(name))
+        except (UnicodeError, LookupError):
+            return 'err'
+
+    def model(self, case, resp):
+        return resp
+
+    def oracle(self, case, impl_res):
+        return []
+
+    def key(self, case, impl_res):
+        return (case[0], case[1], repr(case[2]))
+
+    def bucket(self, case, impl_res):
+        return 'leancodec_%s_%s' % (case[1], impl_res.split(' ')[0])
+
+    def sample(self, case):
+        return {'name': case[0], 'op': case[1], 'arg': repr(case[2])[:80]}
+
+
 def explore(ctx, escalate=False, hint=None):
     thorough = ctx.run.tier == 'thorough'
     cat = catalogue()
@@ -245,7 +333,8 @@ def explore(ctx, escalate=False, hint=None):
             'hyphenated / hyphenated upper, aliases), not all digits; codecs failing the stateless laws (outside the '
             "property's domain): %s. per spelling: get_newline_for_type x {unix,dos}, guess_line_endings x 2 texts "
             '(model vs implementation vs BOM-free encoding computed without the BOM table), writer->reader round trip '
-            'x %d texts x {unset,unix,dos} with byte equality across spellings of one codec; distinct by (op, spelling, arg)'
+            'x %d texts x {unset,unix,dos} with byte equality across spellings of one codec; the concrete Lean codecs of '
+            'Model/Codecs.lean against CPython (canonical name, strict encode / decode); distinct by (op, spelling, arg)'
             % (len(cat), nspell, json.dumps(outside, sort_keys=True), len(TEXTS) if thorough else 2))
     res = base.explore_generic(ctx, spec, None, rule, exhaustive=True, chunk=3000)
     n, vios = roundtrip_check(cat, outside, len(TEXTS) if thorough else 2, rng)
@@ -260,6 +349,12 @@ def explore(ctx, escalate=False, hint=None):
         b = ''.encode(canon) if canon not in outside else b''
         if b and canon not in ('utf-16', 'utf-32', 'utf-8-sig'):
             res['violations'].append({'what': 'codec %s emits a BOM %r but is not in the platform BOM table' % (canon, b)})
+    r2 = base.explore_generic(ctx, LeanCodecs(), 60000 if thorough else (15000 if escalate else 4000),
+                              'Lean codecs (Model/Codecs.lean: ascii, latin-1, utf-8, utf-16, utf-16-le, utf-16-be under 11 '
+                              'spellings) vs CPython on random texts / valid and damaged byte strings', chunk=4000)
+    res['evaluations'] += r2['evaluations']
+    res['disagreements'] += r2['disagreements']
+    res['distribution'].update(r2['distribution'])
     res['distribution']['codecs'] = len(cat)
     res['distribution']['spellings'] = nspell
     res['distribution']['outside_domain'] = outside
